@@ -146,9 +146,16 @@ package control
 //@ func (*DnsController).HasDnsKnowledge
 //@   pure
 //@   trusted
+// (callers use cacheKey as a pure function; its body is checked for the one thing the property needs: the
+// name is canonicalised - lower-cased and made fully qualified - so that what is remembered under
+// "Example.COM" is found again when "example.com." is sniffed)
 //@ func (*DnsController).cacheKey
 //@   pure
-//@   trusted
+//@   anchorsonly
+//@   nonilcheck
+//@   dyncalls noeffect
+//@   at call CanonicalName#1 assert a0 == qname
+//@   ensures calls("CanonicalName") == 1
 //@ func (*ControlPlane).lookupRealDomainCache
 //@   pure
 //@   trusted
@@ -885,3 +892,15 @@ package control
 //@   at return 1 before-defers assert woken() < 0
 //@   at call CompareAndSwap#1 assert a1 == 0 && a2 < 0
 //@   at call tryDeleteQueue#1 assert a1 == q.key && a2 == q
+
+// C18 (knowledge survives a reload with its own lifetime): every restored entry is stored under its key and
+// remembered until the record's ORIGINAL deadline (not the extended cache deadline).
+//@ func (*DnsController).RestoreReloadCache
+//@   anchorsonly
+//@   nonilcheck
+//@   dyncalls noeffect
+//@   modifies *
+//@   at call Map).Store#1 assert unbox(a1, "string") == k && unbox(a2, "*DnsCache") == v && v != nil
+//@   at call dnsCacheBaseKey#1 assert a0 == k
+//@   at call rememberDnsKnowledge#1 assert a0 == c && a2 == v.OriginalDeadline
+//@   at call triggerBpfUpdateIfNeeded#1 assert a1 == v && a2 == now
